@@ -84,15 +84,31 @@ EXN_NAMES = {
 
 
 class ModelDriver:
-    def __init__(self, oracles, path=DRIVER):
+    def __init__(self, oracles, path=DRIVER, groups=()):
         self.oracles = oracles
+        self.groups = list(groups)
+        self.resolved = {}
         self.p = subprocess.Popen([path], stdin=subprocess.PIPE, stdout=subprocess.PIPE,
                                   text=True, bufsize=1)
         self.calls = 0
         self.oracle_calls = 0
 
     def call(self, name, *args):
-        """Returns ('ok', value) or ('err', ExceptionName)."""
+        """Returns ('ok', value) or ('err', ExceptionName).  API names are qualified with their group
+        (Extract/Api_<group>.v); an unqualified name is resolved by trying the groups in order."""
+        if "." in name or not self.groups:
+            return self._call(name, *args)
+        q = self.resolved.get(name)
+        if q is not None:
+            return self._call(q, *args)
+        for g in self.groups:
+            r = self._call(g + "." + name, *args)
+            if r != ("err", "ModelNoSuchApi"):
+                self.resolved[name] = g + "." + name
+                return r
+        return ("err", "ModelNoSuchApi")
+
+    def _call(self, name, *args):
         self.calls += 1
         self.p.stdin.write(name + " " + " ".join(enc(a) for a in args) + "\n")
         self.p.stdin.flush()
